@@ -257,7 +257,17 @@ func mergeStates(c *Ctx, sts []*State) *State {
 		return c.define(prefix, srt, t)
 	}
 	// vars: only those present in all
+	var mvars []types.Object
 	for obj := range live[0].vars {
+		mvars = append(mvars, obj)
+	}
+	sort.Slice(mvars, func(i, j int) bool {
+		if mvars[i].Pos() != mvars[j].Pos() {
+			return mvars[i].Pos() < mvars[j].Pos()
+		}
+		return mvars[i].Name() < mvars[j].Name()
+	})
+	for _, obj := range mvars {
 		vals := make([]string, 0, len(live))
 		ok := true
 		for _, s := range live {
@@ -329,7 +339,7 @@ func mergeStates(c *Ctx, sts []*State) *State {
 		m.heaps[k] = pick("H_"+k, srt, vals)
 	}
 	// ghost scalars
-	for g := range live[0].ghost {
+	for _, g := range sortedKeys(live[0].ghost) {
 		vals := make([]string, 0, len(live))
 		ok := true
 		for _, s := range live {
